@@ -122,14 +122,23 @@ def run(pid, tier, seed, replay):
             if j not in bad_len:
                 ref_lenient += 1
                 continue
+            if "empty-inlist-null-probe" in c.get("classes", []) and c["ok"]:
+                # NULL IN (): the reference says FALSE, the engine NULL for a literal probe and FALSE for a computed one
+                # (known finding KF5); the pair cannot be tied
+                ck.fail_input("empty IN list with a NULL probe: engine and reference semantics differ", brief(c),
+                              key="C04-empty-inlist-null-probe")
+                continue
             if j in bad_eq:
                 ref_diff += 1
                 if c["ok"]:
                     # the reference separates e and e' although the engine computed equal values on every row
                     # (or could not evaluate e at all, e.g. COALESCE before simplification): a failing input of its own
                     if c.get("n_ok", 0) == 0:
+                        # filed under the known three-valued-logic defect class whose syntactic trigger the original contains
+                        tvl = [k for k in c.get("classes", []) if k in ("inlist-merge-ignores-null", "unwrap-narrowing-try_cast",
+                                                                         "empty-inlist-null-probe", "guarantee-maybenull-point-as-constant")]
                         ck.fail_input("reference evaluation separates original and simplified (the engine cannot evaluate the original)",
-                                      brief(c), key="C04-ref:" + (c.get("key") or c["stream"]))
+                                      brief(c), key="C04-" + (tvl[0] if tvl else "ref:" + c["stream"]))
                     else:
                         ck.problem("tie", "the reference separates e and e' but the engine does not: %s" % str(brief(c))[:1500])
             else:
